@@ -34,6 +34,8 @@
 (*                    transfer is in a state that refuses abort (F06-2)    *)
 (*   CycleSkipsLocked manage_transfers starts no task for a transfer whose *)
 (*                    abort / pause is in progress (state lock held)       *)
+(*   OfferSkipsLocked _on_peer_transfer_request starts no                  *)
+(*                    initialize-download for such a transfer either       *)
 (***************************************************************************)
 EXTENDS Naturals, Sequences, FiniteSets, TLC
 
@@ -47,7 +49,7 @@ CONSTANTS
   MaxEnv,            \* bound on environment steps (connect outcomes, peer frames, timeouts)
   MaxRequeue,        \* bound on user re-queues
   MaxOffers,         \* bound on PeerTransferRequest frames from the peer
-  SkipOccupied, CallbackOwnOnly, RemoveCancels, CycleSkipsLocked
+  SkipOccupied, CallbackOwnOnly, RemoveCancels, CycleSkipsLocked, OfferSkipsLocked
 
 TaskIds == 1..MaxTasks
 
@@ -265,24 +267,27 @@ Indirect(t, kd, i, res) ==
 
 \* manager.py:1277-1435  the peer offers to upload file t to us (PeerTransferRequest, direction download) on a P
 \* connection it opened itself.  A sane peer does not offer again while its previous offer is being processed.
-\* Scope: the frame does not arrive while an abort of t is parked in its file removal (the handler would start
-\* initialize-download, which then waits for the state lock and goes on after the abort - not covered here).
+\* The frame can arrive while an abort of t is parked in its file removal: the handler looks at the state value
+\* only (still INCOMPLETE / QUEUED), so it starts initialize-download, whose first step waits for the state
+\* lock and which goes on after the abort has returned - unless OfferSkipsLocked (treated like "being processed").
 PeerOffer(t) ==
   /\ Quiescent /\ cnt.off < MaxOffers /\ cnt' = [cnt EXCEPT !.off = @ + 1]
-  /\ Dir(t) = "down" /\ LiveTT(t) = {} /\ op[t].pc = "idle"
+  /\ Dir(t) = "down" /\ LiveTT(t) = {}
   /\ pconn' = TRUE
-  /\ IF present[t] /\ x[t].st \in {"QUEUED", "INCOMPLETE", "FAILED"}
+  /\ IF present[t] /\ x[t].st \in {"QUEUED", "INCOMPLETE", "FAILED"} /\ ~(Locked(t) /\ OfferSkipsLocked)
        THEN /\ nT < MaxTasks
             /\ nT' = nT + 1
             \* FAILED is first re-queued by the peer (queue(remotely=True)); then initialize-download starts:
             \* state.initialize(), PeerTransferReply(allowed) written, wait for the file connection
-            /\ x' = [x EXCEPT ![t] = DoInitialize(IF x[t].st = "FAILED" THEN DoQueue(x[t], TRUE) ELSE x[t])]
+            \* (with the state lock held by an abort the task is created and waits: nothing changes yet)
+            /\ x' = IF Locked(t) THEN x
+                    ELSE [x EXCEPT ![t] = DoInitialize(IF x[t].st = "FAILED" THEN DoQueue(x[t], TRUE) ELSE x[t])]
             /\ task' = [task EXCEPT ![nT + 1] = [t |-> t, kind |-> "init", pc |-> "waitfile", canc |-> FALSE]]
             /\ ttSlot' = [ttSlot EXCEPT ![t] = nT + 1]
             /\ quiet' = [quiet EXCEPT ![t] = 0]
-            /\ acted' = {t}
+            /\ acted' = IF Locked(t) THEN {} ELSE {t}
        ELSE \* not in the list / ABORTED / PAUSED / COMPLETE: a refusal is written (not a message on t's behalf);
-            \* being processed: ignored
+            \* being processed or changing state: ignored
             /\ acted' = {}
             /\ UNCHANGED <<x, task, nT, ttSlot, quiet>>
   /\ UNCHANGED <<kind0, present, rqSlot, cbq, op>>
